@@ -142,6 +142,30 @@ func (P *Prog) resolveType(pkg *types.Package, text string) (types.Type, error) 
 				return tn.Type(), nil
 			}
 		}
+		// a type declared inside a function body (must be the only one of that name in the package)
+		var hit, inFn *types.TypeName
+		n, nIn := 0, 0
+		for _, pk := range P.pkgs {
+			if pk.Types != pkg || pk.TypesInfo == nil {
+				continue
+			}
+			for id, o := range pk.TypesInfo.Defs {
+				if tn, ok := o.(*types.TypeName); ok && id.Name == text && tn.Parent() != pkg.Scope() {
+					hit = tn
+					n++
+					if P.curTop != nil && P.curTop.Syntax() != nil && P.curTop.Syntax().Pos() <= tn.Pos() && tn.Pos() <= P.curTop.Syntax().End() {
+						inFn = tn
+						nIn++
+					}
+				}
+			}
+		}
+		if nIn == 1 {
+			return inFn.Type(), nil
+		}
+		if n == 1 {
+			return hit.Type(), nil
+		}
 	}
 	return nil, fmt.Errorf("unknown type %s", text)
 }
@@ -282,6 +306,25 @@ func (env *Env) elab(e Expr) (Val, error) {
 				return Val{}, err
 			}
 			args = append(args, av.T)
+		}
+		// a pure method of a concrete named type (contract key "T.M" or "(*T).M", marked pure)
+		if v.GoT != nil {
+			bt := v.GoT
+			ptr := false
+			if pt, ok := bt.(*types.Pointer); ok {
+				bt, ptr = pt.Elem(), true
+			}
+			if nt, ok := bt.(*types.Named); ok && nt.Obj().Pkg() != nil {
+				if _, isI := nt.Underlying().(*types.Interface); !isI {
+					key := nt.Obj().Name() + "." + x.Name
+					if ptr {
+						key = "(*" + nt.Obj().Name() + ")." + x.Name
+					}
+					if pf, ok := P.pures[nt.Obj().Pkg().Path()+"|"+key]; ok && len(pf.resT) == 1 && len(pf.paramT) == len(args)+1 {
+						return Val{T: app(P.sorts.sortOf(pf.resT[0]), pf.sym[0], append([]Term{v.T}, args...)...), GoT: pf.resT[0]}, nil
+					}
+				}
+			}
 		}
 		sym, rt, err := P.ifacePureSym(v.GoT, x.Name)
 		if err != nil {
